@@ -157,6 +157,11 @@ type Sim struct {
 	reads          []readObs
 	extraAnnounced []partDesc
 	operatorFn     func(cmd, mode string)
+	mon            *w1mon
+	peerCalls      []*peerCall
+	hidden         []string
+	w2             *w2state
+	w2m            *w2mon
 
 	hookScanListing   func(*gkDeco, []*sts.Partial)
 	hookReceived      func(*gkDeco, *recvPartObs)
